@@ -54,8 +54,12 @@ def validate_contract(chk: Check, repo: Repo) -> None:
             good = False
         details.append(f"`return {txt}` under {sorted(k for k, v in facts.items())}: {good}")
         ok = ok and good
-    last = fi.node.body[-1]
-    ok = ok and isinstance(last, ast.Raise) and "CouldNotParseTelegram" in ast.unparse(last)
+    # everything else raises CouldNotParseTelegram: no path falls off the end (implicit `return None`), and every raise
+    # statement of the function raises that class
+    byid = {n.id: n for n in cfg.nodes}
+    falls_off = [p_ for p_, _ in byid[cfg.exit].pred if not isinstance(byid[p_].ast, ast.Return)]
+    raises_ = [n for n in cfg.nodes if isinstance(n.ast, ast.Raise)]
+    ok = ok and not falls_off and bool(raises_) and all(n.ast.exc is not None and "CouldNotParseTelegram" in ast.unparse(n.ast.exc) for n in raises_)
     chk.ob("validate-payload-contract", fi.site(), ok, "validate_payload returns the octets only when their count equals payload_length (DPTArray) or the single value only when below 2**payload_length (DPTBinary), and raises CouldNotParseTelegram otherwise: " + "; ".join(details), key="validate-contract")
     overrides = [c.name for c in repo.subclasses(repo.cls("xknx.dpt.dpt", "DPTBase"), strict=True) if "validate_payload" in c.methods]
     chk.ob("validate-payload-contract", fi.site(), not overrides, f"validate_payload overrides: {overrides}", key="validate-overrides")
